@@ -3,3 +3,6 @@ import LouProofs.Lemmas.PosMap
 import LouProofs.C07
 import LouProofs.Contract
 import LouProofs.C04
+import LouProofs.C01Alloc
+import LouProofs.C01
+import LouProofs.C02
